@@ -302,5 +302,51 @@ def gen(rng, focus, k=None, maxops=40):
             else:
                 g.emit(f"topic 0 {g.ident(0, '', valid=False)} #1")
                 g.emit(f"delete-topic 0 #{rng.randint(1, 3)} {g.ident(0, '', valid=False)}")
+    if k is not None and k % 4 == 1:
+        cascade(g, rng)
     g.observe(full=True)
     return cfg, g.ops
+
+
+def cascade(g, rng):
+    """A member of several groups in sibling topics and in another stream; one of those entities is deleted:
+    the memberships elsewhere must survive (`me`, `group`), and when the member disconnects every group must
+    lose it (no zombie member keeps partitions)."""
+    base = 20 + rng.randint(0, 5)
+    s1, s2 = base, base + 1
+    g.emit(f"create-stream 0 {s1} q{s1}")
+    g.emit(f"create-stream 0 {s2} q{s2}")
+    topics = [(s1, 1), (s1, 2), (s2, 1), (s2, 2)]
+    for (s, t) in topics:
+        g.emit(f"create-topic 0 #{s} {t} w{t} {rng.randint(1, 3)} never unlimited -")
+        g.emit(f"create-group 0 #{s} #{t} 1 cg")
+    c = max(g.conns) + 1
+    g.emit(f"conn {c} tcp")
+    g.emit(f"login {c} iggy iggy")
+    g.emit(f"me {c}")
+    joined = rng.sample(topics, rng.randint(2, 4))
+    for (s, t) in joined:
+        g.emit(f"join {c} #{s} #{t} #1")
+    g.emit(f"me {c}")
+    victim = rng.choice(joined)
+    how = rng.random()
+    if how < 0.5:
+        g.emit(f"delete-topic 0 #{victim[0]} #{victim[1]}")
+        gone = {victim}
+    elif how < 0.75:
+        g.emit(f"delete-stream 0 #{victim[0]}")
+        gone = {x for x in topics if x[0] == victim[0]}
+    else:
+        g.emit(f"delete-group 0 #{victim[0]} #{victim[1]} #1")
+        gone = {victim}
+    g.emit(f"me {c}")
+    rest = [x for x in topics if x not in gone and not (how >= 0.5 and how < 0.75 and x[0] == victim[0])]
+    for (s, t) in rest:
+        g.emit(f"group 0 #{s} #{t} #1")
+    if rng.random() < 0.7:
+        g.emit(f"close {c}")
+        for (s, t) in rest:
+            g.emit(f"group 0 #{s} #{t} #1")
+    for s in (s1, s2):
+        if not (0.5 <= how < 0.75 and s == victim[0]):
+            g.streams[s] = {"name": f"q{s}", "topics": {}, "tguess": 1}
